@@ -260,6 +260,9 @@ def run(ctx):
             doc = L.damage_images(L.enrich(rich_doc(f, ctx.seed)), how)
             add({"id": f"img:{f}:{how}", "fmt": f, "doc": doc, "sp": dict(none_sp), "parg": None, "mat": False},
                 kind="imgdamage", abstract={"fmt": f, "images": how}, fmt=f)
+        doc = L.enrich(rich_doc(f, ctx.seed))       # picture members whose CRC does not match (unreadable pictures)
+        add({"id": f"img:{f}:badcrc", "fmt": f, "doc": doc, "sp": dict(none_sp), "parg": None, "mat": False,
+             "badcrc": [i["part"] for i in L.doc_images(doc)]}, kind="imgdamage", abstract={"fmt": f, "images": "badcrc"}, fmt=f)
 
     root, fixtures = _fixtures(3_000_000 if ctx.thorough else 450_000)
     if not fixtures:
